@@ -291,6 +291,74 @@ def _tier_hint_table(fn: Func, root: ast.AST) -> Dict[str, Set[str]]:
     return table
 
 
+def rule_tier_independent(ctx) -> None:
+    """per-shard worker: whether and how a tier is searched depends on nothing computed for another tier of the same
+    shard (no loop-carried value reaches a branch of the tier loop or an argument of search_tiered).  The cross-shard
+    merge applies the k stop rule over *distinct* ids of all shards; a per-shard early stop counts raw hits of
+    overlapping tiers and starves later tiers of one shard."""
+    from ..dataflow import Taint
+    cs = ctx.func(T2PAR)
+    cfg = ctx.cfg(cs)
+    rd = ctx.rd(cs)
+    loops = [x for x in walk_no_defs(cs.node) if isinstance(x, ast.For) and isinstance(x.iter, ast.Name) and x.iter.id == "tiers"]
+    if len(loops) != 1:
+        raise AnalysisError("anchor-vanished: tier loop of collect_shard_hits")
+    loop = loops[0]
+    heads = cfg.nodes_of(loop)
+    if not heads:
+        raise AnalysisError("anchor-vanished: CFG node of the tier loop")
+    head = heads[0]
+    body_ids = {id(x) for st in loop.body for x in ast.walk(st)}
+
+    def in_loop(n) -> bool:
+        return n.ast is not None and (id(n.ast) in body_ids or (getattr(n, "stmt", None) is not None and id(n.stmt) in body_ids))
+
+    def carried(d, use) -> bool:
+        """definition d (inside the loop) reaches `use` around the back edge"""
+        if d.node is head or not in_loop(d.node):
+            return False
+        if d not in rd.reaching(d.name, head):
+            return False
+        kills = {k.node for k in _strong_defs(rd, cfg, d.name) if in_loop(k.node)}
+        return cfg.path([head], lambda m: m is use, avoid=lambda m: m in kills and m is not use, include_start=False) is not None
+
+    current = {"use": None}
+
+    def guard(d, labels):
+        if current["use"] is not None and carried(d, current["use"]):
+            return set(labels) | {"CARRIED:" + d.name}
+        return labels
+
+    bad: List[Tuple[ast.AST, str]] = []
+    n_sites = 0
+    for n in cfg.nodes:
+        if not in_loop(n) or n not in cfg.reachable_from_entry():
+            continue
+        exprs: List[ast.AST] = []
+        if n.kind == "cond":
+            exprs.append(n.ast)
+        for c in node_calls(n):
+            if call_tail(c) == "search_tiered":
+                exprs += list(c.args) + [k.value for k in c.keywords]
+        for e in exprs:
+            n_sites += 1
+            current["use"] = n
+            t = Taint(rd, lambda e2, n2: set(), guard=guard)
+            lab = t.of(e, n)
+            current["use"] = None
+            car = sorted(x.split(":", 1)[1] for x in lab if x.startswith("CARRIED:"))
+            if car:
+                bad.append((e, f"`{src(e)[:50]}` depends on {car}, carried over from the previous tier of the same shard"))
+    ctx.floor("C09.SIB-T2", "branches and search arguments in the per-shard tier loop", n_sites, 8)
+    ctx.check(not bad, "C09.SIB-T2", f"{cs.qual}/tier-independent", cs.loc(bad[0][0]) if bad else cs.loc(loop),
+              f"{n_sites} branch conditions / search arguments of the tier loop use nothing carried over from another tier",
+              (bad[0][1] if bad else "") + ": the per-shard result for one tier depends on the other tiers of that shard, which the cross-shard merge (stop at k distinct ids over all shards) cannot undo")
+
+
+def _strong_defs(rd, cfg, name):
+    return [d for d in rd.all_defs if d.name == name and d.kind in ("assign", "for", "with", "unpack", "walrus", "del")]
+
+
 def rule_sib_t2(ctx) -> None:
     t2 = ctx.func(T2CORE)
     cs = ctx.func(T2PAR)
@@ -376,4 +444,5 @@ def run(ctx) -> None:
     rule_call(ctx)
     rule_sib_t1(ctx)
     rule_sib_t2(ctx)
+    rule_tier_independent(ctx)
     rule_share(ctx)
